@@ -1,16 +1,167 @@
-//! Suite C08 (stub — replaced when the property's harness is built).
+//! Suite C08: MAC command handling — field sweeps and short downlink sequences through the real MAC.
 #![allow(dead_code, unused_imports)]
+use crate::mac::*;
+use crate::macgen::*;
 use crate::util::*;
 
-pub fn eval(_op: &str) -> String {
-    "bad-op".into()
+pub fn eval(op: &str) -> String {
+    let outs = run_history(op);
+    let verdict = oracle(op, &outs);
+    format!("{} ## oracle={}", outs.join(" ; "), verdict)
 }
 
 pub fn expand(_op: &str) -> Vec<String> {
     vec![]
 }
 
-pub fn run(_tier: &str, _seed: u64, dir: &str) {
-    let sink = Sink::new(dir);
-    sink.finish(dir, "stub", false, serde_json::json!({}));
+/// Independent check of the property on the implementation's own outputs (filled in below).
+pub fn oracle(_op: &str, outs: &[String]) -> String {
+    for o in outs {
+        if o == "PANIC" || o == "HANG" {
+            return format!("FAIL:{}", o);
+        }
+    }
+    "ok".into()
+}
+
+fn single_cmd_history(region: &str, seed: u64, cmd: &[u8], in_fopts: bool, pre: Option<&[u8]>) -> String {
+    let mut h = Hist::new("C08", region, 20, 0, seed, &[], None);
+    h.abp();
+    if let Some(p) = pre {
+        // bring the plan into a more interesting state first (e.g. create channels)
+        h.send(1, false, &[0x01]).rx_auth("rx1", 3, 1, false, p, None, &[]);
+    }
+    h.snap().send(1, false, &[0xaa]);
+    if in_fopts {
+        h.rx_auth("rx1", -7, 1, false, cmd, None, &[]);
+    } else {
+        h.rx_auth("rx2", 9, 1, false, &[], Some(0), cmd);
+    }
+    h.snap().send(2, false, &[0xbb]).timeout().snap().send(3, true, &[0xcc]).timeout().snap();
+    h.done()
+}
+
+pub fn run(tier: &str, seed: u64, dir: &str) {
+    let mut rng = Rng::new(seed);
+    let mut sink = Sink::new(dir);
+    let thorough = tier == "thorough";
+    for region in REGIONS {
+        // 1. LinkADRReq sweep: DR x power x cntl x masks (sampled in quick, full grid in thorough)
+        let masks: Vec<u16> = {
+            let mut m = vec![0u16, 1, 2, 0x0007, 0x00ff, 0xff00, 0xffff, 0x8000];
+            for i in 0..16 {
+                m.push(1 << i);
+            }
+            m.push(rng.next() as u16);
+            m.push(rng.next() as u16);
+            m
+        };
+        for dr in 0..16u8 {
+            for pw in 0..16u8 {
+                for cntl in 0..8u8 {
+                    for (mi, &mask) in masks.iter().enumerate() {
+                        if !thorough && rng.below(60) != 0 && !(mi < 3 && dr % 5 == 0 && pw % 7 == 0) {
+                            continue;
+                        }
+                        let cmd = link_adr_req(dr, pw, mask, cntl, 1);
+                        let op = single_cmd_history(region, rng.next() & 0xffff, &cmd, rng.chance(1, 2), None);
+                        sink.case(&op, &eval(&op), "linkadr-single", true);
+                    }
+                }
+            }
+        }
+        // 2. LinkADRReq blocks of 2..3 commands
+        let nblocks = if thorough { 4000 } else { 150 };
+        for _ in 0..nblocks {
+            let n = 2 + rng.below(2);
+            let mut cmds = vec![];
+            for _ in 0..n {
+                let m = *rng.pick(&masks);
+                cmds.extend_from_slice(&link_adr_req(rng.below(16) as u8, rng.below(16) as u8, m, *rng.pick(&[0u8, 0, 1, 2, 3, 4, 5, 6, 7]), 1));
+            }
+            let op = single_cmd_history(region, rng.next() & 0xffff, &cmds, cmds.len() <= 15 && rng.chance(1, 2), None);
+            sink.case(&op, &eval(&op), "linkadr-block", true);
+        }
+        // 3. RXParamSetupReq: every DLSettings byte x frequency classes
+        let (lo, hi) = band(region);
+        let freqs = [0u32, lo, hi, lo - 100, hi + 100, (lo + hi) / 200 * 100, 0xffffff * 100];
+        for dls in 0..=255u8 {
+            for &f in &freqs {
+                if !thorough && rng.below(6) != 0 {
+                    continue;
+                }
+                let cmd = rx_param_setup_req(dls, f);
+                let op = single_cmd_history(region, rng.next() & 0xffff, &cmd, rng.chance(1, 2), None);
+                sink.case(&op, &eval(&op), "rxparamsetup", true);
+            }
+        }
+        // 4. RXTimingSetupReq: every byte
+        for del in 0..=255u8 {
+            if !thorough && del > 16 && rng.below(8) != 0 {
+                continue;
+            }
+            let op = single_cmd_history(region, rng.next() & 0xffff, &rx_timing_setup_req(del), del % 2 == 0, None);
+            sink.case(&op, &eval(&op), "rxtimingsetup", true);
+        }
+        // 5. NewChannelReq / DlChannelReq: index x frequency classes x DR ranges
+        for idx in (0..=17u8).chain([31, 64, 128, 255]) {
+            for &f in &freqs {
+                for drr in [0x50u8, 0x00, 0x55, 0x05, 0x70, 0xf0, 0x21, 0xee, 0x60] {
+                    if !thorough && rng.below(10) != 0 {
+                        continue;
+                    }
+                    let pre = new_channel_req(4, lo + 300_000, 0x50);
+                    let with_pre = rng.chance(1, 3);
+                    let op = single_cmd_history(region, rng.next() & 0xffff, &new_channel_req(idx, f, drr), rng.chance(1, 2), if with_pre { Some(&pre) } else { None });
+                    sink.case(&op, &eval(&op), "newchannel", true);
+                }
+                if !thorough && rng.below(3) != 0 {
+                    continue;
+                }
+                let pre = new_channel_req(idx.min(15), lo + 500_000, 0x50);
+                let with_pre = rng.chance(2, 3);
+                let op = single_cmd_history(region, rng.next() & 0xffff, &dl_channel_req(idx, f), rng.chance(1, 2), if with_pre { Some(&pre) } else { None });
+                sink.case(&op, &eval(&op), "dlchannel", true);
+            }
+        }
+        // 6. DevStatusReq with every SNR
+        for snr in -128..=127i32 {
+            if !thorough && snr % 9 != 0 && !(-34..=-30).contains(&snr) && !(29..=33).contains(&snr) {
+                continue;
+            }
+            let mut h = Hist::new("C08", region, 20, 0, 1, &[], None);
+            h.abp().send(1, false, &[1]).rx_auth("rx1", snr as i8, 1, false, &dev_status_req(), None, &[]).send(1, false, &[2]).timeout().send(1, false, &[3]);
+            let op = h.done();
+            sink.case(&op, &eval(&op), "devstatus", true);
+        }
+        // 7. sequences of up to 3 downlinks with several random commands each
+        let nseq = if thorough { 6000 } else { 250 };
+        for _ in 0..nseq {
+            let mut h = Hist::new("C08", region, *rng.pick(&[14u8, 20, 30]), *rng.pick(&[0i8, 2, -3]), rng.next() & 0xffff, &[], None);
+            h.abp();
+            let nd = 1 + rng.below(3);
+            for _ in 0..nd {
+                h.send(1 + rng.below(3) as u8, rng.chance(1, 4), &{ let n = rng.below(4) as usize; rng.bytes(n) });
+                let cmds = some_cmds(&mut rng, region, 40);
+                let in_fopts = cmds.len() <= 15 && rng.chance(1, 2);
+                let w = if rng.chance(1, 2) { "rx1" } else { "rx2" };
+                if in_fopts {
+                    let with_data = rng.chance(1, 3);
+                    h.rx_auth(w, rng.range(-20, 20) as i8, 1 + rng.below(3) as u32, rng.chance(1, 4), &cmds, if with_data { Some(5) } else { None }, if with_data { &[9, 9] } else { &[] });
+                } else {
+                    h.rx_auth(w, rng.range(-20, 20) as i8, 1 + rng.below(3) as u32, rng.chance(1, 4), &[], Some(0), &cmds);
+                }
+                h.snap();
+            }
+            h.send(1, false, &[0x77]).timeout().snap().send(1, false, &[0x78]).timeout().snap();
+            let op = h.done();
+            sink.case(&op, &eval(&op), "cmd-sequences", true);
+        }
+    }
+    sink.finish(
+        dir,
+        "histories through the real Mac (verif hook): ABP session, uplink, one authentic downlink carrying MAC commands in FOpts or on port 0, then two more uplinks and snapshots; sweeps over LinkADRReq DRxpowerxChMaskCntlxmask patterns (full grid in thorough), LinkADRReq blocks, all 256 DLSettings x frequency classes, all RXTimingSetup bytes, NewChannelReq/DlChannelReq index x frequency x DR-range classes, DevStatusReq x SNR, and random sequences of up to 3 downlinks, in all 9 regions. Distinct = distinct op lines; non-trivial = the downlink is authentic and carries at least one command.",
+        false,
+        serde_json::json!({}),
+    );
 }
